@@ -66,6 +66,10 @@ def run(check: Check, repo: Repo, tier: str) -> None:
     T.leaf_callback_wrap(check, repo)
     T.collection_shapes(check, repo)
     T.str_conversions(check, repo)
+    T.raised_values_guarded(check, repo)
+    from rules import validation_rules as V
+
+    V.report_discipline(check, repo, [m for m in repo.package_modules("validation") if ".custom" not in m.name])
     from rules import language_rules as L
     L.escape_range(check, repo)
     L.escape_pairs(check, repo)
